@@ -77,6 +77,10 @@ impl<'a> Lexer<'a> {
     fn peek(&self, k: usize) -> Option<char> {
         self.src.get(self.i + k).copied()
     }
+    /// Char offset just behind the last token returned by `next` (= its end).
+    pub fn offset(&self) -> usize {
+        self.i
+    }
     fn here(&self) -> Pos {
         Pos { line: self.line, col: self.col }
     }
@@ -390,9 +394,31 @@ pub fn tokenize(src: &str) -> Result<Vec<Token>, LexError> {
     }
 }
 
+/// Like `tokenize`, with the char offset just behind each token (its end; `Eof` has start == end).
+pub fn tokenize_spans(src: &str) -> Result<Vec<(Token, usize)>, LexError> {
+    let mut lx = Lexer::new(src);
+    let mut v = Vec::new();
+    loop {
+        let t = lx.next()?;
+        let end = lx.offset();
+        let eof = t.t == Tok::Eof;
+        v.push((t, end));
+        if eof {
+            return Ok(v);
+        }
+    }
+}
+
 #[cfg(test)]
 mod tests {
     use super::*;
+
+    #[test]
+    fn token_spans() {
+        let v = tokenize_spans("{ ab(x: \"s\") }").unwrap();
+        let spans: Vec<_> = v.iter().map(|(t, e)| (t.off, *e)).collect();
+        assert_eq!(spans, vec![(0, 1), (2, 4), (4, 5), (5, 6), (6, 7), (8, 11), (11, 12), (13, 14), (14, 14)]);
+    }
 
     #[test]
     fn spec_block_string_example() {
